@@ -1047,6 +1047,68 @@ fn report_transpose(model: &mut Model, rep: &mut Report, reg_major: &[u8], d: Di
     });
 }
 
+/// Logs of 65536 frames and more played in several calls: the total number of samples and of register writes is
+/// that of the schedule (frames x spf samples, fourteen writes per frame less the skipped R13 = 0xFF) whatever the
+/// lengths of the play buffers — the spec's count, no model run (the Lean list model is quadratic here).
+fn long_play(rep: &mut Report, only: Option<(usize, bool)>) {
+    for (frames, stereo) in [(65536usize, false), (65543, true), (70001, false)] {
+        if let Some((f, st)) = only {
+            if f != frames || st != stereo {
+                continue;
+            }
+        }
+        let mut data = vec![0u8; frames * 14];
+        for f in 0..frames {
+            data[f * 14] = f as u8;
+            data[f * 14 + 7] = 0x38;
+            data[f * 14 + 13] = if f % 3 == 0 { 0x0A } else { 0xFF };
+        }
+        let c = Case { stereo, vs: 1, ym: false, rate: 100, pf: 50, data, chunks: vec![] };
+        let spf = 2usize;
+        let per = if stereo { 2 } else { 1 };
+        let res = catch_unwind(AssertUnwindSafe(|| {
+            let mut p = Player::<RecBackend>::new(c.vtx(), c.rate, c.stereo);
+            let mut total = 0usize;
+            let mut calls = 0usize;
+            for n in [1000usize, 7, 120_000, 3, 50_000, 200_000, 200_000, 64, 64].iter().cycle().take(60) {
+                let mut buf = vec![SENTINEL; *n];
+                total += p.play(&mut buf);
+                calls += 1;
+            }
+            let (samples, writes) = REC.with(|r| {
+                let r = r.borrow();
+                (r.samples as usize, r.log.iter().filter(|c| matches!(c, Call::W(..))).count())
+            });
+            (total, samples, writes, calls)
+        }));
+        rep.eval();
+        rep.class(format!("long play frames={} stereo={}", frames, stereo));
+        let want_samples = frames * spf;
+        let want_writes = frames * 13 + (frames + 2) / 3;
+        let bad = match res {
+            Err(_) => Some("Player panicked".to_string()),
+            Ok((total, samples, writes, _)) => {
+                if total != want_samples * per || samples != want_samples || writes != want_writes {
+                    Some(format!("{} buffer slots filled, {} samples taken from the chip, {} register writes", total, samples, writes))
+                } else {
+                    None
+                }
+            }
+        };
+        if let Some(b) = bad {
+            rep.violation(Violation {
+                kind: Kind::SpecViolated,
+                key: "C20/play.long".into(),
+                what: format!("a log of {} frames ({}), 2 samples per frame, played in buffers of 1000, 7, 120000, 3, 50000, 200000, …: {}", frames, if stereo { "stereo" } else { "mono" }, b),
+                correspondence: "corr.C20.play (Player::play vs Spec.Vtx schedule: frames*spf samples, writes of every frame)".into(),
+                case: J::obj(vec![("text", J::s(format!("longplay frames={} stereo={}", frames, stereo as u8)))]),
+                implementation: b.clone(),
+                expected: format!("{} buffer slots, {} samples, {} register writes", want_samples * per, want_samples, want_writes),
+            });
+        }
+    }
+}
+
 fn long_vtx(rep: &mut Report, longs: &[usize]) {
     // long recordings (32768 frames = a decoded size of exactly seven 64 KiB blocks, more than 65536 frames = over 20 minutes at 50 Hz): the Lean model's list transposition is
     // quadratic, so here the frame-major order is checked against the spec's index formula directly:
@@ -1105,6 +1167,13 @@ play call with spf>0, non-silent precise stream classes, transposition frame cou
     let mut model = Model::spawn(&o.model, "C20");
 
     if let Some(text) = &o.replay {
+        if let Some(rest) = text.trim().strip_prefix("longplay frames=") {
+            let t: Vec<&str> = rest.split_whitespace().collect();
+            let f = t.first().and_then(|x| x.parse::<usize>().ok()).unwrap_or(65536);
+            let st = t.get(1).map_or(false, |x| x.ends_with('1'));
+            long_play(&mut rep, Some((f, st)));
+            return rep;
+        }
         if let Some(rest) = text.trim().strip_prefix("longvtx frames=") {
             if let Ok(n) = rest.trim().parse::<usize>() {
                 long_vtx(&mut rep, &[n]);
@@ -1205,6 +1274,7 @@ play call with spf>0, non-silent precise stream classes, transposition frame cou
             report_transpose(&mut model, &mut rep, &d, x);
         }
     }
+    long_play(&mut rep, None);
     long_vtx(&mut rep, &if o.thorough() { vec![32767, 32768, 32769, 65535, 65536, 65537, 70001, 98304, 100000] } else { vec![32768, 65537] });
     rep.extra.push(("logs".into(), J::I(logs as i64)));
     rep.extra.push(("model_requests".into(), J::I(model.requests as i64)));
